@@ -30,17 +30,23 @@ def main():
                     funcs.add(fn[len("/repo/"):-3].replace("/", ".") + ":" + frame.f_code.co_qualname)
 
         sys.setprofile(prof)
+    import io
+    import contextlib
+
+    buf = io.StringIO()
     try:
-        r = eval(call, ns)  # noqa: S307
+        with contextlib.redirect_stdout(buf):
+            r = eval(call, ns)  # noqa: S307
         sys.setprofile(None)
-        out = {"outcome": "true" if r else "false", "detail": repr(r)[:300], "functions": sorted(funcs)}
+        said = buf.getvalue().strip()
+        out = {"outcome": "true" if r else "false", "detail": (repr(r) + ((" | " + said[-600:]) if said else ""))[:900], "functions": sorted(funcs)}
     except BaseException as exc:  # noqa
         sys.setprofile(None)
         import traceback
 
         name = type(exc).__name__
         out = {
-            "outcome": "harness-error" if name in ("HarnessError", "NameError", "ImportError", "SyntaxError") else "raise",
+            "outcome": "inconclusive" if name == "Inconclusive" else "harness-error" if name in ("HarnessError", "NameError", "ImportError", "SyntaxError") else "raise",
             "detail": f"{name}: {exc}"[:500],
             "traceback": traceback.format_exc()[-1500:],
         }
